@@ -138,6 +138,18 @@ func (b *Bucket) slowRecently(now time.Duration) bool {
 	return false
 }
 
+// stalledNow: an upload is stalled right now.
+func (b *Bucket) stalledNow() bool {
+	b.mu.Lock()
+	defer b.mu.Unlock()
+	for _, u := range b.Uploads {
+		if u.Outcome >= 3 && !u.Done {
+			return true
+		}
+	}
+	return false
+}
+
 // World is one backup run.
 type World struct {
 	S      *kernel.Sim
@@ -237,6 +249,7 @@ func Run(s *kernel.Sim) *World {
 	// schedule
 	horizon := time.Duration(t.Range(10, 240)) * time.Minute
 	cancelAt := horizon
+	earlyCancel := t.Bool(1, 3)
 	quietFor := time.Duration(t.Range(4, 20)) * time.Minute
 	stopWrites := horizon - quietFor
 	if len(w.Bucket.Script) > 0 && t.Bool(1, 2) {
@@ -300,7 +313,18 @@ func Run(s *kernel.Sim) *World {
 				w.tracef("write burst %d (%d puts)", k, nb)
 				s.Go(fmt.Sprintf("writer%02d", k), func(*kernel.Task) {
 					for i := 0; i < nb; i++ {
-						d.Put(sup, fmt.Sprintf("name%d", k%3), []byte(fmt.Sprintf("value-%d-%d", k, i)))
+						name := fmt.Sprintf("name%d", k%3)
+						switch (k + i) % 5 {
+						case 0:
+							// a bulky value: deleting it later shrinks the file
+							d.Put(sup, "bulk", bytes.Repeat([]byte{byte('a' + k%26)}, 3000+k))
+						case 1:
+							d.Delete(sup, "bulk")
+						case 2:
+							d.Delete(sup, name)
+						default:
+							d.Put(sup, name, []byte(fmt.Sprintf("value-%d-%d", k, i)))
+						}
 					}
 					writersBusy--
 					lastWriteT = s.Now()
@@ -320,6 +344,17 @@ func Run(s *kernel.Sim) *World {
 				sinceAdvance = 0
 				s.Advance(dlt)
 			}})
+			if !cancelled && earlyCancel && w.Bucket.stalledNow() {
+				// the server shuts down while an upload is stalled
+				acts = append(acts, act{4, func() {
+					cancelled = true
+					cancelT = s.Now()
+					w.tracef("cancel (during a stalled upload)")
+					s.Fault("server-context-cancelled-mid-upload")
+					cancel()
+					s.Advance(0)
+				}})
+			}
 			if !cancelled && s.Now() >= cancelAt {
 				acts = append(acts, act{30, func() {
 					cancelled = true
